@@ -478,6 +478,9 @@ def rule_restores_use_copies(eng, rep, rule="C19-4.a-row-saved-for-restoring-is-
                 elif isinstance(ds, ast.Assign) and isinstance(ds.value, ast.Call) and isinstance(ds.value.func, ast.Attribute) and ds.value.func.attr == "copy" \
                         and isinstance(ds.value.func.value, ast.Subscript) and ekey(ds.value.func.value) == ekey(tgt):
                     kinds.append(("copy", dn))
+                elif isinstance(ds, ast.Assign) and isinstance(ds.value, ast.Call) and ekey(ds.value.func).split(".")[-1] in ("copy", "array") and ds.value.args \
+                        and isinstance(ds.value.args[0], ast.Subscript) and ekey(ds.value.args[0]) == ekey(tgt):
+                    kinds.append(("copy", dn))          # np.copy(A[i]) / np.array(A[i])
                 else:
                     kinds.append(("other", dn))
             if not any(k in ("view", "copy") for (k, _d) in kinds):
